@@ -1,4 +1,4 @@
 From Coq Require Import Extraction ExtrOcamlBasic.
 From MakoV Require Import Lib.Str Gen.AstUtil Model.Margin Model.PyScope Model.PyExpr.
 Extraction Language OCaml.
-Extraction "../ocaml/c19/model.ml" N.of_nat adjust_whitespace find_identifiers needs_from_namespace print_expr.
+Extraction "../ocaml/c19/model.ml" N.of_nat adjust_whitespace flush_block find_identifiers needs_from_namespace print_expr.
